@@ -37,6 +37,7 @@ fn wmax(p: &HashMap<String, String>, d: u64) -> u64 { p.get("wmax").and_then(|s|
 /// C02: full grammar, all option mixes without overflow / no_link_wrapping, widths 1..wmax.
 fn c02(r: &mut Rng, i: u64, p: &HashMap<String, String>) -> Vec<Value> {
     let mut f = if r.chance(1, 2) { Feat::all() } else { Feat::notables() };
+    f.vs16 = true;      // emoji presentation sequences (the recorded finding emoji-presentation-sequence lives here)
     f.ids = r.chance(1, 4);
     f.stray = r.chance(1, 3);
     f.sup = r.chance(1, 3);
@@ -216,6 +217,7 @@ fn any_opts(r: &mut Rng) -> Vec<Value> {
 /// C11: (d, 0, o), (d, w, o), (d, w, o + overflow); documents from the grammar and their byte mutations.
 fn c11(r: &mut Rng, i: u64, p: &HashMap<String, String>) -> Vec<Value> {
     let mut f = if r.chance(1, 2) { Feat::all() } else { Feat::notables() };
+    f.vs16 = true;      // emoji presentation sequences (the recorded finding emoji-presentation-sequence lives here)
     f.ids = r.chance(1, 5);
     f.odd_href = r.chance(1, 2);
     f.sup = r.chance(1, 4);
@@ -626,6 +628,17 @@ fn c10(r: &mut Rng, i: u64, p: &HashMap<String, String>) -> Vec<Value> {
     let deco = *r.pick(&["plain", "rich", "trivial", "plain_nd"]);
     let mut ops = opts_c02(r);
     if r.chance(1, 6) { ops.push(json!(["overflow"])); }
+    // sometimes the documents carry a style element whose rules show (hidden elements, preserved white space,
+    // colours) and the configuration reads it: every route, and every conversion of one parsed document, must see it
+    if r.chance(1, 3) {
+        for d in docs.iter_mut() {
+            let n = r.range(1, 3);
+            let rules: Vec<String> = (0..n).map(|_| format!("{} {{ {} }}", *r.pick(&["em", "strong", "code", "li", "blockquote", "h2", "p", "a", "td", "dd"]),
+                                                           *r.pick(&["display: none", "display: none", "white-space: pre", "color: #ff0000", "background-color: #00ff00"]))).collect();
+            *d = d.replacen("<body>", &format!("<body><style>{}</style>", rules.join(" ")), 1);
+        }
+        ops.push(json!(["doccss"]));
+    }
     let nw = 2 + r.below(3);
     let mut widths: Vec<u64> = (0..nw).map(|_| if r.chance(1, 3) { r.range(1, 6) } else { r.range(1, wmax(p, 80)) }).collect();
     if r.chance(1, 4) { widths.push(0); }
@@ -757,7 +770,7 @@ fn any_config(r: &mut Rng, bounded_width: bool) -> (Value, &'static str) {
     if r.chance(1, 3) { ops.push(json!(["doccss"])); }
     if r.chance(1, 4) { ops.push(json!(["css", css_snippet(r)])); }
     if r.chance(1, 6) { ops.push(json!(["agentcss", css_snippet(r)])); }
-    let route = if dn == "rich" { *r.pick(&["string", "lines", "coloured", "staged_string", "staged_lines", "staged_coloured"]) } else { *r.pick(&["string", "lines", "staged_string", "staged_clone_string"]) };
+    let route = if dn == "rich" { *r.pick(&["string", "lines", "coloured", "staged_string", "staged_lines", "staged_coloured", "restaged_lines"]) } else { *r.pick(&["string", "lines", "staged_string", "staged_clone_string", "restaged_string"]) };
     (json!({"deco": deco, "ops": ops}), route)
 }
 /// C01: bytes of every kind x widths {0, tiny, ordinary, 10^5, usize::MAX} x the configuration product.
@@ -766,7 +779,7 @@ fn c01(r: &mut Rng, i: u64, p: &HashMap<String, String>) -> Vec<Value> {
     let shape = if p.get("shape").map(|s| s == "deep").unwrap_or(false) { 5 } else { r.below(11) };
     let mut levels = 0u64;
     let bytes: Vec<u8> = match shape {
-        0 | 1 | 2 | 3 => { let mut f = if r.chance(1, 2) { Feat::all() } else { Feat::notables() }; f.ids = r.chance(1, 3); f.sup = r.chance(1, 3);
+        0 | 1 | 2 | 3 => { let mut f = if r.chance(1, 2) { Feat::all() } else { Feat::notables() }; f.vs16 = true; f.ids = r.chance(1, 3); f.sup = r.chance(1, 3);
                            let mut g = G::new(r, f); let body = g.flow(0);
                            let style = if r.chance(1, 3) { format!("<style>{}</style>", css_snippet(r)) } else { String::new() };
                            let html = format!("{}{}", style, doc_html(&body)); mutate(r, html.as_bytes()) }
@@ -1078,11 +1091,13 @@ fn c18(r: &mut Rng, i: u64, p: &HashMap<String, String>) -> Vec<Value> {
     let h3 = css_doc_html("", &strip_style(&full));
     let deco = *r.pick(&["plain", "rich", "plain_nd"]);
     let route = if deco == "rich" { "lines" } else { "string" };
+    // (the document with its sheets also through the staged calls, converting the parsed document twice)
+    let route1 = if r.chance(1, 4) { if deco == "rich" { "restaged_lines" } else { "restaged_string" } } else { route };
     let w = r.range(1, wmax(p, 100));
     let on = cfg(deco, vec![json!(["doccss"])]);
     let off = cfg(deco, vec![]);
     vec![json!({"id": id("c18", i), "meta": {"css": {"agent": [], "user": [], "author": author}},
-                "runs": [run(&h1, w, on.clone(), route), run(&h2, w, on, route), run(&h1, w, off.clone(), route), run(&h3, w, off.clone(), route),
+                "runs": [run(&h1, w, on.clone(), route1), run(&h2, w, on, route), run(&h1, w, off.clone(), route), run(&h3, w, off.clone(), route),
                          // the document without its hidden subtrees has nothing left for its sheets to select: rendered with
                          // document CSS off it is the reference for the elements that are *not* hidden
                          run(&h2, w, off, route)]})]
